@@ -314,3 +314,131 @@ Proof.
   rewrite <- (H t Lt). apply result_equivariant.
 Qed.
 End Results.
+
+(* ---------------------------------------------------------------- micro-step machine: split Add *)
+Section Micro.
+Variables memo env : Z -> Z.
+
+Lemma pend_set_same p t v : pend_set p t v t = v.
+Proof. unfold pend_set. rewrite Nat.eqb_refl. reflexivity. Qed.
+
+(* one Add executed as lookup immediately followed by the same task's insert = the atomic AIntern *)
+Lemma micro_add_atomic s p t n r :
+  mexec memo env ((t, MLook n) :: (t, MIns n) :: r) s p =
+  (let rest := mexec memo env r (snd (step memo env s (AIntern n))) (pend_set p t (index n (syms s))) in
+   ((t, fst (step memo env s (AIntern n))) :: fst rest, snd rest)).
+Proof.
+  cbn [mexec mstep fst snd]. rewrite pend_set_same.
+  cbn [step]. unfold intern.
+  destruct (index n (syms s)) as [i|] eqn:E; cbn [fst snd]; reflexivity.
+Qed.
+
+Lemma exec_cons t a r s :
+  exec memo env ((t, a) :: r) s =
+  ((t, fst (step memo env s a)) :: fst (exec memo env r (snd (step memo env s a))),
+   snd (exec memo env r (snd (step memo env s a)))).
+Proof.
+  cbn [exec]. destruct (step memo env s a) as [x s1]. cbn [fst snd].
+  destruct (exec memo env r s1) as [xs s2]. reflexivity.
+Qed.
+
+Lemma mexec_expand ev : forall s p, mexec memo env (expand ev) s p = exec memo env ev s.
+Proof.
+  induction ev as [|[t a] r IH]; intros s p; [reflexivity|].
+  rewrite exec_cons.
+  destruct a as [d|n|k|k].
+  - cbn [expand mexec mstep fst snd]. rewrite IH. reflexivity.
+  - cbn [expand]. rewrite micro_add_atomic. cbv zeta. rewrite IH. reflexivity.
+  - cbn [expand mexec mstep fst snd]. rewrite IH. reflexivity.
+  - cbn [expand mexec mstep fst snd]. rewrite IH. reflexivity.
+Qed.
+
+(* an intern_atomic micro schedule is the expansion of its collapse *)
+Lemma atomic_expand_len : forall k mev, List.length mev <= k ->
+  intern_atomic_b mev = true -> mev = expand (collapse mev).
+Proof.
+  induction k as [|k IH]; intros mev L A.
+  - destruct mev; [reflexivity|simpl in L; lia].
+  - destruct mev as [|[t m] r]; [reflexivity|].
+    destruct m as [a|n|n].
+    + destruct a as [d|n|c|c]; cbn [intern_atomic_b] in A; try discriminate;
+        cbn [collapse expand]; f_equal; apply IH; simpl in L; try lia; assumption.
+    + cbn [intern_atomic_b] in A. destruct r as [|[t' m'] r']; [discriminate|].
+      destruct m' as [a'|n'|n']; try discriminate.
+      apply andb_prop in A. destruct A as [A A3]. apply andb_prop in A. destruct A as [A1 A2].
+      apply Nat.eqb_eq in A1. apply Z.eqb_eq in A2. subst t' n'.
+      cbn [collapse expand]. f_equal. f_equal. apply IH; [simpl in L; lia|assumption].
+    + cbn [intern_atomic_b] in A. discriminate.
+Qed.
+
+Theorem mexec_atomic mev s p :
+  intern_atomic mev -> mexec memo env mev s p = exec memo env (collapse mev) s.
+Proof.
+  intros A. rewrite (atomic_expand_len (List.length mev) mev (le_n _) A) at 1. apply mexec_expand.
+Qed.
+
+Lemma expand_atomic ev : intern_atomic (expand ev).
+Proof.
+  unfold intern_atomic. induction ev as [|[t a] r IH]; [reflexivity|].
+  destruct a as [d|n|k|k]; cbn [expand intern_atomic_b]; try assumption.
+  rewrite Nat.eqb_refl, Z.eqb_refl. assumption.
+Qed.
+
+Lemma collapse_expand ev : collapse (expand ev) = ev.
+Proof.
+  induction ev as [|[t a] r IH]; [reflexivity|].
+  destruct a as [d|n|k|k]; cbn [expand collapse]; rewrite IH; reflexivity.
+Qed.
+
+(* confluence with the atomicity of interning as an explicit hypothesis on the micro schedules *)
+Theorem confluence_intern_atomic tasks mev1 mev2 s0 p1 p2 r1 f1 r2 f2 :
+  NoDup (syms s0) ->
+  intern_atomic mev1 -> intern_atomic mev2 ->
+  interleaving tasks (collapse mev1) -> interleaving tasks (collapse mev2) ->
+  mexec memo env mev1 s0 p1 = (r1, f1) -> mexec memo env mev2 s0 p2 = (r2, f2) ->
+  Permutation (diags f1) (diags f2) /\
+  (forall n, In n (syms f1) <-> In n (syms f2)) /\ NoDup (syms f1) /\ NoDup (syms f2) /\
+  (forall k, In k (cache f1) <-> In k (cache f2)) /\
+  (forall t, t < List.length tasks ->
+     map (ren (syms f1) (syms f2)) (events_of t r1) = events_of t r2).
+Proof.
+  intros ND A1 A2 I1 I2 E1 E2.
+  rewrite (mexec_atomic _ _ _ A1) in E1. rewrite (mexec_atomic _ _ _ A2) in E2.
+  exact (confluence memo env tasks _ _ s0 r1 f1 r2 f2 ND I1 I2 E1 E2).
+Qed.
+End Micro.
+
+(* without the hypothesis: a well-formed schedule of the split Add in which the two halves of task 0's
+   Add are separated by task 1's lookup.  Both tasks miss, both insert: the name is in the table twice,
+   task 0 holds id 0 and task 1 id 1 for the SAME name; when task 1 interns the name again (declares a
+   local under the id it got, then looks the local up) it receives id 0 - a different id. *)
+Definition split_tasks : list (list action) := [ [AIntern 7%Z]; [AIntern 7%Z; AIntern 7%Z] ].
+Definition split_sched : list (nat * maction) :=
+  [ (0, MLook 7%Z); (1, MLook 7%Z); (0, MIns 7%Z); (1, MIns 7%Z); (1, MLook 7%Z); (1, MIns 7%Z) ].
+Definition shared0 : shared := {| diags := []; syms := []; cache := [] |}.
+
+Lemma NoDup_77 : ~ NoDup [7%Z; 7%Z].
+Proof. intros H. inversion H as [|? ? N _]; subst. apply N. left. reflexivity. Qed.
+
+Theorem nonatomic_intern_refuted :
+  exists tasks mev,
+    split_wf_b [] mev = true /\ interleaving tasks (collapse mev) /\ ~ intern_atomic mev /\
+    forall memo env,
+      let run := mexec memo env mev shared0 pend0 in
+      let seq := exec memo env (sequential tasks) shared0 in
+      events_of 0 (fst run) = [RId 0] /\ events_of 1 (fst run) = [RId 1; RId 0] /\
+      ~ NoDup (syms (snd run)) /\
+      events_of 0 (fst seq) = [RId 0] /\ events_of 1 (fst seq) = [RId 0; RId 0] /\
+      NoDup (syms (snd seq)).
+Proof.
+  exists split_tasks, split_sched.
+  split; [vm_compute; reflexivity|]. split.
+  { split.
+    - intros e H. vm_compute in H. cbn. intuition (subst; cbn; lia).
+    - intros t Lt. destruct t as [|[|t]]; [reflexivity|reflexivity|cbn in Lt; lia]. }
+  split; [unfold intern_atomic; vm_compute; discriminate|].
+  intros memo env. cbv zeta.
+  repeat split; try (vm_compute; reflexivity).
+  - vm_compute. exact NoDup_77.
+  - vm_compute. constructor; [intros []|constructor].
+Qed.
